@@ -20,7 +20,7 @@ from common import Scratch, Report, seed, tier, write_evidence, load_findings
 import coqcheck
 import crashlib as cl
 
-CONFIGS = ['file-pickle', 'file-json', 'file-source', 'dir-pickle', 'dir-fast', 'dir-json', 'sql']
+CONFIGS = ['file-pickle', 'file-json', 'file-source', 'dir-pickle', 'dir-fast', 'dir-json', 'dir-source', 'sql']
 BIG = ['__big__', 300000, 'x']
 ABSENT = '__absent__'
 
@@ -71,6 +71,15 @@ def fixed_scenarios(label):
     if label != 'sql':
         out.append((pre, ['set', a, BIG]))    # a value written in several write() calls
         out.append(([[a, BIG], [b, 1]], ['set', b, 2]))
+    else:
+        out.append((pre, ['set', c, ['__big__', 20000, 'y']]))     # a commit of several database pages
+        out.append((pre, ['update', [[a, ['__big__', 20000, 'z']], [c, 1]]]))
+    if label.startswith('dir'):
+        # an earlier removal / overwrite of the same key was itself interrupted (at its k-th call), the key was
+        # stored again, and now the operation is interrupted a second time
+        for k in (0, 1, 2):
+            out.append(({'pre': pre, 'history': [[['del', b], k], [['set', b, 7], None]]}, ['del', b]))
+            out.append(({'pre': pre, 'history': [[['set', b, 6], 3 + k], [['set', b, 7], None]]}, ['set', b, 8]))
     return out
 
 
@@ -165,7 +174,8 @@ def abstract_dir(calls):
     def kind(path):
         base = path.rstrip('/')
         if '/K_.I_' in base:
-            return 'temp'
+            # a temporary name is FRESH: the model's theorems assume no directory of that name exists yet
+            return 'temp' if re.search(r'/K_\.I_[0-9a-f]{32}(/[^/]*)?$', base) else 'temp-not-fresh'
         if re.search(r'/K_[^/]*(/[^/]*)?$', base):
             return 'entry'
         return 'other'
@@ -220,10 +230,39 @@ class Runner:
         snap = self.scratch.new('-snap')
         os.makedirs(os.path.join(snap, 'w'))
         path = os.path.join(snap, 'w', 'arch')
+        history = []
+        if isinstance(pre, dict):
+            # {'pre': contents, 'history': [[action, k], ...]}: earlier operations, the k-th file-system-changing
+            # call of which was never made because the process was killed (k = None: the operation completed)
+            pre, history = pre.get('pre', []), pre.get('history', [])
         if pre:
             r = cl.run_child({'config': label, 'path': path, 'action': ['update', pre]}, os.path.join(snap, 'w'))
             if not r.get('ok'):
                 raise RuntimeError('setup failed: %s' % r)
+        wdir = os.path.join(snap, 'w')
+        for act, k in history:
+            spec = {'config': label, 'path': path, 'action': act, 'mark': True}
+            if k is None:
+                r = cl.run_child(dict(spec, mark=False), wdir)
+                continue
+            probe = self.scratch.new('-probe')
+            shutil.copytree(wdir, probe)
+            lg = probe + '.trace'
+            cl.traced_run(dict(spec, path=os.path.join(probe, 'arch')), probe, lg)
+            calls = cl.parse_trace(lg)
+            b, e = cl.window(calls)
+            shutil.rmtree(probe, ignore_errors=True)
+            os.remove(lg)
+            pts = [i for i in range((b or 0) + 1, e or 0) if cl.mutating(*calls[i])]
+            if not pts:
+                continue
+            i = pts[min(k, len(pts) - 1)]
+            lg2 = snap + '.hist.trace'
+            cl.traced_run(spec, wdir, lg2, when=cl.ordinal(calls, i))
+            try:
+                os.remove(lg2)
+            except OSError:
+                pass
         return snap
 
     def scenario(self, label, pre, action, pool):
@@ -252,6 +291,7 @@ class Runner:
                 res['problems'].append({'kind': 'harness', 'what': 'cannot read before/after: %s %s' % (pre_seen, post_seen)})
                 return res
             prev, postv = pre_seen['value'], post_seen['value']
+            res['pre_effective'] = prev
             res['trace'] = [cl.norm(n, a) for n, a in calls[b + 1:e] if cl.mutating(n, a)]
             res['calls'] = calls[b + 1:e]
             points = [i + 1 for i in range(b + 1, e) if cl.mutating(*calls[i])]
@@ -366,7 +406,7 @@ def main():
                     seen.add(('h', r['label']))
                     rep.violation('harness error on %s: %s' % (r['label'], p['what']), {'broken': 'C13 harness', 'scenario': [r['label'], r.get('pre'), r.get('action')]}, no_input=True)
                 continue
-            kf = classify_known(r['label'], r['action'], r['pre'], p, findings)
+            kf = classify_known(r['label'], r['action'], r.get('pre_effective', r['pre']), p, findings)
             if kf:
                 rep.known_finding(kf['id'], kf['description'])
                 continue
@@ -444,7 +484,7 @@ def replay(p, path):
     findings = load_findings()
     left = []
     for q in r['problems']:
-        kf = classify_known(p['backend'], p['action'], p['pre'], q, findings) if q['kind'] == 'crash' else None
+        kf = classify_known(p['backend'], p['action'], r.get('pre_effective', p['pre']), q, findings) if q['kind'] == 'crash' else None
         if kf:
             print('KNOWN-FINDING: property=C13 %s: %s' % (kf['id'], q['what']))
         else:
